@@ -114,6 +114,17 @@ def finder(ctx, nsessions, nsearch, thorough, engines):
         for s in json.load(open(corpus)):
             s["net"] = tuple(s["net"])
             sessions.insert(0, s)
+    # outside the option grid of C03 but part of the same answer path: a book move (OwnBook + BookFile) is answered
+    # without looking at searchmoves.  One fixed session keeps the observation alive (its own known-finding key).
+    import struct
+    from vlib.common import CACHE
+    book = os.path.join(CACHE, "c03-book.bin")
+    with open(book, "wb") as f:
+        f.write(struct.pack(">QHHI", 0x463b96181691fc9c, 796, 1, 0))       # polyglot: startpos -> e2e4
+    sessions.insert(0, dict(net=("material", 1), steps=[dict(
+        options={"OwnBook": "true", "BookFile": book}, newgame=False, position="position startpos", poskind="game",
+        fen=ch.START_FEN, go="go depth 3", limit="depth", stop_after=None, ponderhit=None, searchmoves=["d2d4"],
+        smkind="subset", opts_now={"OwnBook": "true", "BookFile": book})]))
     t0 = time.time()
 
     def one(ses):
@@ -563,7 +574,7 @@ def run(ctx):
     # (5) trace correspondence (needs the optional hook)
     trace_dis = trace_correspond(ctx, engines, ml) if (not proof_broken or corr_note is None) and corr_note is None else []
     # (F) finder: always
-    found = finder(ctx, ctx.scale(32, 1000), 5, thorough, engines)
+    found = finder(ctx, ctx.scale(40, 1000), 5, thorough, engines)
     report_found(ctx, found, engines)
     concrete = len(found)
     # classify correspondence disagreements
@@ -593,7 +604,7 @@ def run(ctx):
         extra = finder(ctx, ctx.scale(32, 300), 5, thorough, engines)
         report_found(ctx, extra, engines)
         concrete += len(extra)
-    if concrete == 0 or True:
+    if True:
         what = []
         if proof_broken:
             what.append("theorem(s) in %s no longer check (or the translator refused)" % PROP_FILE)
@@ -616,22 +627,177 @@ def trace_correspond(ctx, engines, ml):
     return trace_run(ctx, engines, ml)
 
 
+def strip_info(line):
+    t = line.split()
+    out = []
+    i = 0
+    while i < len(t):
+        if t[i] in ("time", "nodes", "nps", "tbhits") and i + 1 < len(t):
+            i += 2
+            continue
+        out.append(t[i])
+        i += 1
+    return " ".join(out)
+
+
+def parse_trace(txt):
+    """Trace file of one search -> (T command for the driver, recorded best move) or None when nothing was searched."""
+    recs = [l.split() for l in txt.split("\n") if l.startswith("RT ")]
+    if not recs or recs[0][1] != "BEGIN":
+        return None
+    kv = dict(x.split("=", 1) for x in recs[0][2:] if "=" in x and not x.startswith("moves="))
+    i = recs[0].index("moves=") if "moves=" in recs[0] else None
+    roots = recs[0][i + 1:] if i is not None else []
+    events = []
+    quiet = set()
+    pending = None
+    best = None
+    for r in recs[1:]:
+        k = r[1]
+        if k == "SEARCH":
+            d = dict(x.split("=", 1) for x in r[2:])
+            pending = d
+            if d["k"] == "0" and d["quiet"] == "1":
+                quiet.add(d["move"])
+        elif k == "RET":
+            d = dict(x.split("=", 1) for x in r[2:])
+            events.append(dict(score=int(d["score"]), nodes=int(d["nodes"]) - int(pending["nodes0"]), tm=0, ti=0,
+                               pv=[pending["move"]], move=pending["move"]))
+            pending = None
+        elif k == "PV":
+            events[-1]["pv"] = r[2:]
+        elif k == "TM":
+            events[-1]["tm"] = int(r[2])
+        elif k == "TI":
+            events[-1]["ti"] = 1
+        elif k == "STOP":
+            events.append(None)
+        elif k == "END":
+            best = r[2].split("=", 1)[1]
+    ev = ";".join("X" if e is None else "R,%d,%d,%d,%d,%s" % (e["score"], e["nodes"], e["tm"], e["ti"], " ".join(e["pv"]))
+                  for e in events)
+    cmd = "T|%s|%s|%s|%s|%s|%s|%s" % (kv["maxPV"], kv["maxDepth"], kv["noTime"], kv["onlyExact"], " ".join(roots),
+                                       " ".join(sorted(quiet)), ev)
+    return cmd, best, len(events)
+
+
 def trace_run(ctx, engines, ml):
-    return []
+    """Each traced search runs in its own engine process with TEXEL_VERIF_ROOTTRACE set; the recorded oracle stream is
+    replayed through the extracted iterativeDeepeningFrom and must reproduce the engine's info lines and best move."""
+    import shutil
+    import tempfile
+    rng = ctx.rng
+    n = ctx.scale(100, 3000)
+    tmp = tempfile.mkdtemp(prefix="c03-trace-")
+    jobs = []
+    for i in range(n):
+        for _ in range(20):
+            ses = fd.gen_session(rng, not ctx.quick, 1)
+            st = ses["steps"][0]
+            legal = ch.legal_uci(ch.parse_fen(st["fen"]))
+            # keep searches that have something to search (the engine ignores searchmoves of `go ponder`: known finding)
+            if legal and (not st["searchmoves"] or any(m in legal for m in st["searchmoves"]) or st["limit"] == "ponder"):
+                break
+        jobs.append((i, ses))
+
+    def one(job):
+        i, ses = job
+        tf = os.path.join(tmp, "t%d.txt" % i)
+        res = fd.run_session(engines[tuple(ses["net"])], ses, per_search_timeout=60.0, env={"TEXEL_VERIF_ROOTTRACE": tf})
+        txt = open(tf).read() if os.path.exists(tf) else ""
+        return res, txt
+    try:
+        with ThreadPoolExecutor(max_workers=NCPU) as ex:
+            outs = list(ex.map(one, jobs))
+    finally:
+        shutil.rmtree(tmp, ignore_errors=True)
+    dis = []
+    cmds = []
+    meta = []
+    for (i, ses), (res, txt) in zip(jobs, outs):
+        if not res or res[0]["status"] != "ok":
+            continue
+        pt = parse_trace(txt)
+        lines = res[0]["lines"]
+        if pt is None:
+            ctx.count("trace_nothing_searched")
+            continue
+        cmd, best, nev = pt
+        eng_lines = [strip_info(l) for l in lines if l.startswith("info") and " pv " in l]
+        bm = [l for l in lines if l.startswith("bestmove")]
+        cmds.append(cmd)
+        meta.append((ses, eng_lines, bm[0].split()[1] if bm else "?", best, nev))
+    if cmds:
+        rc, mouts, err = run_lines(ml, cmds, ("best=", "FUEL", "ERR"), timeout=1200)
+        if rc != 0 or len(mouts) != len(cmds):
+            dis.append(("TRACE-model-failure", cmds[min(len(mouts), len(cmds) - 1)][:400], "rc=%s" % rc, err[-300:], ""))
+        else:
+            for cmd, (ses, eng_lines, bm, best, nev), mo in zip(cmds, meta, mouts):
+                ctx.evaluated()
+                ctx.count("trace_searches_replayed")
+                ctx.count("trace_events", nev)
+                ctx.count("trace_info_lines", len(eng_lines))
+                st = ses["steps"][0]
+                script = [c for c in fd.step_commands(st)]
+                m = parse_kv(mo) if mo.startswith("best=") else {}
+                want = " / ".join(eng_lines)
+                if nev >= 10 and len(eng_lines) >= 3:
+                    ctx.nontrivial("T|" + st["fen"] + "|" + st["go"] + "|" + json.dumps(st["opts_now"], sort_keys=True))
+                if not m or m.get("best") != bm or m.get("lines", "") != want or m.get("mismatch") or bm != best:
+                    got = m.get("lines", mo[:200])
+                    # first differing line
+                    a, b = want.split(" / "), got.split(" / ")
+                    k = next((j for j in range(min(len(a), len(b))) if a[j] != b[j]), min(len(a), len(b)))
+                    dis.append(("TRACE-diff", json.dumps({"net": list(ses["net"]), "script": script}),
+                                "bestmove %s; line %d: %s" % (bm, k, a[k] if k < len(a) else "<end>"),
+                                "best %s; mismatch=%s; line %d: %s" % (m.get("best"), m.get("mismatch"), k, b[k] if k < len(b) else "<end>"),
+                                ""))
+            ctx.sample({"traced_search": meta[-1][0]["steps"][0]["go"], "events": meta[-1][4], "engine_lines": len(meta[-1][1]),
+                        "model": mouts[-1][:160]}, limit=9)
+    ctx.notes["root_trace"] = "hook present: %d searches traced and replayed through the extracted root loop" % len(cmds)
+    return dis
 
 
 def replay(ctx, body):
     r = body.get("replay", {})
-    net = tuple(r.get("net", ("material", 1)))
-    exe = cbuild.build_engine(net_kind=net[0], net_seed=int(net[1]))
-    cmds = [tuple(c) if isinstance(c, list) else c for c in r["script"]]
-    print("# engine: %s (net %s %s)" % (exe, net[0], net[1]))
-    for c in cmds:
-        print("#   ", c)
-    out = run_script(exe, cmds)
-    for l in out:
-        print(l)
-    print("# root:", r.get("root_fen"))
-    print("# legal moves by the oracle:", " ".join(r.get("legal_moves_by_oracle", [])))
-    print("# searchmoves:", r.get("searchmoves"))
     print("# reported:", body.get("what"))
+    if "script" in r:
+        # finder violation: the UCI script against the real engine
+        net = tuple(r.get("net", ("material", 1)))
+        exe = cbuild.build_engine(net_kind=net[0], net_seed=int(net[1]))
+        cmds = [tuple(c) if isinstance(c, list) else c for c in r["script"]]
+        print("# engine: %s (net %s %s)" % (exe, net[0], net[1]))
+        for c in cmds:
+            print("#   ", c)
+        out = run_script(exe, cmds)
+        for l in out:
+            print(l)
+        print("# root:", r.get("root_fen"))
+        print("# legal moves by the oracle:", " ".join(r.get("legal_moves_by_oracle", [])))
+        print("# searchmoves:", r.get("searchmoves"))
+        return
+    # correspondence disagreement / function-level violation: harness command(s) against the real functions
+    cmds = r.get("harness_commands") or ([r["harness_command"]] if r.get("harness_command") else [])
+    fdis = r.get("first_disagreement") or {}
+    if not cmds and fdis.get("harness_command"):
+        cmds = [fdis["harness_command"]]
+    if cmds and cmds[0].startswith("{"):
+        # trace disagreement: the command is a JSON object with the UCI script
+        j = json.loads(cmds[0])
+        net = tuple(j["net"])
+        exe = cbuild.build_engine(net_kind=net[0], net_seed=int(net[1]))
+        script = ["uci"] + [tuple(c) if isinstance(c, list) else c for c in j["script"]] + [("wait", "bestmove")]
+        for l in run_script(exe, script):
+            print(l)
+        print("# model said:", fdis.get("model"))
+        return
+    if cmds:
+        cpp = cbuild.build_harness("root_harness", with_util=False, netfile=cbuild.make_net("material", 1), extra_srcs=HARNESS_SRCS)
+        rc, out, err = sh([cpp], input="\n".join(cmds) + "\n", timeout=120)
+        for c in cmds:
+            print("# harness command:", c)
+        print(out.strip())
+        print("# recorded: harness=%s" % (r.get("harness") or fdis.get("harness")))
+        print("# recorded: model/oracle=%s" % (r.get("model") or r.get("oracle") or fdis.get("model")))
+    else:
+        print(json.dumps(r, indent=1)[:4000])
